@@ -84,7 +84,7 @@ Proof.
   specialize (IH s2). destruct (drain m false n now s2) as [[s3 ps] dl].
   unfold dr_st, dr_ps in *; cbn [fst snd] in *.
   intros H. inversion H; subst. rewrite IH, Hp by assumption.
-  apply pop_some in Ep. cbn [negb qof] in Ep. apply Ep.
+  apply pop_some in Ep. apply Ep. reflexivity.
 Qed.
 
 (* ---- the class of events that fit ---- *)
@@ -148,8 +148,15 @@ Qed.
 
 Definition exec_bounded (x : event) : st * list pinfo * list pinfo :=
   exec_event (b_local (e_b x)) (b_rt (e_b x)) (b_coop (e_b x)) (e_now x) (e_acts x) (e_st x).
-Definition queue_after (x : event) : list nat :=
-  lq (fst (fst (exec_bounded x))) ++ cq (fst (fst (exec_bounded x))).
+Definition queues (s : st) : list nat := lq s ++ cq s ++ inj s.
+Definition queue_after (x : event) : list nat := queues (fst (fst (exec_bounded x))).
+
+Lemma queues_nil s : queues s = [] <-> quiescent s = true.
+Proof.
+  rewrite quiescent_nil. unfold queues. split.
+  - intros H. apply app_eq_nil in H. destruct H as [H1 H2]. apply app_eq_nil in H2. tauto.
+  - intros [-> [-> ->]]. reflexivity.
+Qed.
 
 Lemma wake_deferred_nil now s : wake_deferred now [] s = s.
 Proof. reflexivity. Qed.
@@ -165,14 +172,14 @@ Proof.
   set (d2 := drain None false (measure (dr_st d1)) now (dr_st d1)).
   intros [H2 [H3 [Hok Hout]]].
   apply Forall_app in Hok. destruct Hok as [Hok2 Hok3].
-  assert (Q1 : qof true (dr_st d1) = []) by (apply drain_sufficient; lia).
-  assert (Q2 : qof false (dr_st d2) = []) by (apply drain_sufficient; lia).
+  assert (Q1 : qlen true (dr_st d1) = 0%nat) by (apply drain_sufficient; lia).
+  assert (Q2 : qlen false (dr_st d2) = 0%nat) by (apply drain_sufficient; lia).
   assert (E1 : drain (Some (b_coop b)) true (b_local b) now s0 = d1) by (apply drain_mode; assumption).
   assert (E2 : drain (Some (b_coop b)) false (b_rt b) now (dr_st d1) = d2) by (apply drain_mode; assumption).
   assert (D1 : dr_dl d1 = []) by apply drain_ideal_no_defer.
   assert (D2 : dr_dl d2 = []) by apply drain_ideal_no_defer.
-  assert (L2 : lq (dr_st d2) = []).
-  { unfold d2. rewrite drain_out by exact Hout. exact Q1. }
+  assert (L2 : qlen true (dr_st d2) = 0%nat).
+  { unfold qlen, d2. rewrite drain_out by exact Hout. exact Q1. }
   split.
   - unfold exec_event. fold s0. rewrite E1.
     destruct d1 as [[s1 p2] dl2] eqn:Ed1. unfold dr_st, dr_ps, dr_dl in *; cbn [fst snd] in *.
@@ -187,7 +194,7 @@ Theorem quiescent_if_within_budget x : ~ KnownClass x ->
 Proof.
   intros Hk. apply not_known_within in Hk. destruct (exec_fits x Hk) as [E Q].
   split; [|split; [|exact E]].
-  - unfold queue_after. rewrite E. apply quiescent_iff in Q. destruct Q as [-> ->]. reflexivity.
+  - unfold queue_after. rewrite E. apply queues_nil. exact Q.
   - rewrite E. unfold ideal_event, ideal_first in *. cbn [ideal_rounds].
     destruct (ideal_round (e_now x) (handler (e_now x) (e_acts x) (e_st x))) as [[s2 p2] p3]. cbn [fst] in *.
     rewrite Q. reflexivity.
